@@ -259,6 +259,15 @@ func c16(args []string) {
 			exp2 := evalRef(s2, nil)
 			jobs = append(jobs, &job{s: s2, exp: exp2, cfg: Cfg{Buf: 2, Procs: 2, SoftSec: 8}, kind: "runto", what: mode + " wanted (shared sources, buffer 2)"})
 		}
+		{
+			// several patterns, an inline flag on the first one: every pattern is a pattern of its own ("^OTHER$" matches
+			// no process, whatever flags its neighbour carries)
+			s2 := s.Clone()
+			s2.Run = spec.Run{Mode: "runtoregex", Targets: []string{"(?i)^WANTED$", "^OTHER$"}}
+			s3 := s.Clone()
+			s3.Run = spec.Run{Mode: "runtoregex", Targets: []string{"^wanted$"}}
+			jobs = append(jobs, &job{s: s2, exp: evalRef(s3, nil), cfg: Cfg{Buf: 2, Procs: 2, SoftSec: 8}, kind: "runto", what: "runtoregex with patterns (?i)^WANTED$ and ^OTHER$ (only 'wanted' matches)"})
+		}
 	}
 	// one in-port fed by a raw stream and by streams derived from it (feeders that are ancestors of other feeders)
 	{
